@@ -26,6 +26,23 @@
 //!                                     `k<c>:<u>` seeks that go on after errors, failed seeks and seeks
 //!                                     onto bytes that merely parse as a frame; obs = per call
 //!                                     `<count|position sought|Err>@<position told>`; model = SeekBytes.hrs_run
+//!   hshift <filehex> <ops1> <mid> <ns>  the SHIFT theorem (c02_seek_to_told_position_shift): reader A
+//!                                     (fresh) runs <ops1> (`r<n>` / `k<c>:<u>`), tells v, then reads
+//!                                     <ns>; reader B (fresh, same bytes) runs <mid> (anything, also
+//!                                     failing calls), seeks to v, then reads <ns>.  obs = `<rows of
+//!                                     ops1> | <v> | <A's rows> | <seek result>@<told> | <B's rows>`;
+//!                                     model = SeekBytesShift.hshift_run.  Property side (on the REAL
+//!                                     rows and the REAL bytes delivered): ops1 error-free and seek Ok
+//!                                     => B's rows and data == A's; in-block offset > 0 => seek Ok and
+//!                                     tells v
+//!   hreloc <filehex> <mid> <c>:<u> <ns>  the RELOCATION form (c02_seek_then_reads_relocated): reader B
+//!                                     (fresh) runs <mid>, seeks to (c,u), reads <ns>; reader C is a
+//!                                     fresh Reader over the bytes from c on, seeks to (0,u), reads
+//!                                     <ns>.  obs = `<B's seek>@<told> | <B's rows> | <C's seek>@<told>
+//!                                     | <C's rows> | <C's told moved by c> | <C's rows moved by c>`;
+//!                                     model = SeekBytesReloc.hreloc_run.  Property side (REAL rows and
+//!                                     bytes): B's seek Ok => C's seek Ok, B's told position and rows
+//!                                     == C's moved by c, same bytes delivered
 //!   wfs  <level> <finish> <ops> <n> <faults> <tbl>  writer history (ops as wtm plus `t` = try_finish)
 //!                                     over nv::adversary::FaultySink with the fault script <faults>
 //!                                     (`F` full, `S<k>` short, `I` interrupted, `E<code>` failure of
@@ -1254,6 +1271,171 @@ fn run_hrs(c: &Case) -> Obs {
 }
 
 
+/// one call of a read / seek history: (what the call returned, the position told after it, the
+/// bytes a read delivered)
+fn hs_step(r: &mut bgzf::io::Reader<Cursor<Vec<u8>>>, op: &str) -> (String, Option<VP>, Vec<u8>) {
+    let mut data = Vec::new();
+    let g = if op.starts_with('k') {
+        let (tc, tu) = op[1..].split_once(':').unwrap();
+        let (tc, tu): (u64, u16) = (tc.parse().unwrap(), tu.parse().unwrap());
+        match VP::try_from((tc, tu)) {
+            Err(_) => "Err:InvalidInput".to_string(),
+            Ok(v) => match guarded(AssertUnwindSafe(|| r.seek(v))) {
+                Outcome::Done(Ok(x)) => u64::from(x).to_string(),
+                Outcome::Done(Err(e)) => format!("Err:{}", errkind(&e)),
+                Outcome::Panicked(_) => "Panic".into(),
+            },
+        }
+    } else {
+        let n: usize = op[1..].parse().unwrap();
+        let mut buf = vec![SENTINEL; n];
+        match guarded(AssertUnwindSafe(|| Read::read(r, &mut buf))) {
+            Outcome::Done(Ok(k)) => {
+                data.extend_from_slice(&buf[..k.min(n)]);
+                k.to_string()
+            }
+            Outcome::Done(Err(e)) => format!("Err:{}", errkind(&e)),
+            Outcome::Panicked(_) => "Panic".into(),
+        }
+    };
+    let vp = match guarded(AssertUnwindSafe(|| r.virtual_position())) {
+        Outcome::Done(v) => Some(v),
+        Outcome::Panicked(_) => None,
+    };
+    (g, vp, data)
+}
+
+fn hs_row(g: &str, vp: Option<VP>) -> String {
+    format!("{g}@{}", vp.map_or("Panic".to_string(), |v| format!("{}:{}", v.compressed(), v.uncompressed())))
+}
+
+/// The shift theorem after a successful seek, on two real readers over the same bytes (see the
+/// header comment, kind hshift); compared with NV.Bgzf.SeekBytesShift.hshift_run.
+fn run_hshift(c: &Case) -> Obs {
+    let bytes = nv::unhex(&c.args[0]);
+    let split = |s: &str| -> Vec<String> { if s == "_" { vec![] } else { s.split(',').map(str::to_string).collect() } };
+    let (ops1, mid, ns) = (split(&c.args[1]), split(&c.args[2]), split(&c.args[3]));
+    let join = |v: &[String]| if v.is_empty() { "_".to_string() } else { v.join(" ") };
+    let mut verdict = Ok(());
+    let mut panic = false;
+    // reader A
+    let mut a = bgzf::io::Reader::new(Cursor::new(bytes.clone()));
+    let mut rows1 = Vec::new();
+    let mut all_ok = true;
+    for op in &ops1 {
+        let (g, vp, _) = hs_step(&mut a, op);
+        all_ok &= !g.starts_with("Err");
+        panic |= g == "Panic" || vp.is_none();
+        rows1.push(hs_row(&g, vp));
+    }
+    let told = match guarded(AssertUnwindSafe(|| a.virtual_position())) {
+        Outcome::Done(v) => v,
+        Outcome::Panicked(_) => return Obs::fail("-", "damaged-file-history-panic", "tell after ops1"),
+    };
+    let (mut rows_a, mut data_a) = (Vec::new(), Vec::new());
+    for n in &ns {
+        let (g, vp, d) = hs_step(&mut a, &format!("r{n}"));
+        panic |= g == "Panic" || vp.is_none();
+        rows_a.push(hs_row(&g, vp));
+        data_a.push(d);
+    }
+    // reader B
+    let mut b = bgzf::io::Reader::new(Cursor::new(bytes.clone()));
+    for op in &mid {
+        let (g, vp, _) = hs_step(&mut b, op);
+        panic |= g == "Panic" || vp.is_none();
+    }
+    let (sg, svp, _) = hs_step(&mut b, &format!("k{}:{}", told.compressed(), told.uncompressed()));
+    panic |= sg == "Panic" || svp.is_none();
+    let (mut rows_b, mut data_b) = (Vec::new(), Vec::new());
+    for n in &ns {
+        let (g, vp, d) = hs_step(&mut b, &format!("r{n}"));
+        panic |= g == "Panic" || vp.is_none();
+        rows_b.push(hs_row(&g, vp));
+        data_b.push(d);
+    }
+    let seek_ok = !sg.starts_with("Err") && sg != "Panic";
+    if panic {
+        verdict = Err(("damaged-file-history-panic".to_string(), "hshift".to_string()));
+    } else if all_ok && seek_ok && rows_a != rows_b {
+        verdict = Err(("seek-to-told-position-not-shift".to_string(), format!("A: {} B: {}", join(&rows_a), join(&rows_b))));
+    } else if all_ok && seek_ok && data_a != data_b {
+        verdict = Err(("seek-to-told-position-other-data".to_string(), format!("told {}:{}", told.compressed(), told.uncompressed())));
+    } else if all_ok && told.uncompressed() > 0 && !(seek_ok && svp == Some(told)) {
+        verdict = Err(("seek-to-told-position-inside-block-fails".to_string(), format!("told {}:{} seek {}", told.compressed(), told.uncompressed(), hs_row(&sg, svp))));
+    }
+    let o = format!(
+        "{} | {}:{} | {} | {} | {}",
+        join(&rows1),
+        told.compressed(),
+        told.uncompressed(),
+        join(&rows_a),
+        hs_row(&sg, svp),
+        join(&rows_b)
+    );
+    Obs::ok(o, all_ok && seek_ok && !ops1.is_empty() && ns.len() >= 2).with_verdict(verdict)
+}
+
+/// The relocation form of the shift theorem on two real readers (see the header comment, kind
+/// hreloc); compared with NV.Bgzf.SeekBytesReloc.hreloc_run.
+fn run_hreloc(c: &Case) -> Obs {
+    let bytes = nv::unhex(&c.args[0]);
+    let split = |s: &str| -> Vec<String> { if s == "_" { vec![] } else { s.split(',').map(str::to_string).collect() } };
+    let (mid, ns) = (split(&c.args[1]), split(&c.args[3]));
+    let (tc, tu) = c.args[2].split_once(':').unwrap();
+    let (tc, tu): (u64, u16) = (tc.parse().unwrap(), tu.parse().unwrap());
+    let join = |v: &[String]| if v.is_empty() { "_".to_string() } else { v.join(" ") };
+    let mut panic = false;
+    let moved = |vp: Option<VP>| -> Option<VP> { vp.and_then(|v| VP::try_from((v.compressed() + tc, v.uncompressed())).ok()) };
+    // reader B
+    let mut b = bgzf::io::Reader::new(Cursor::new(bytes.clone()));
+    for op in &mid {
+        let (g, vp, _) = hs_step(&mut b, op);
+        panic |= g == "Panic" || vp.is_none();
+    }
+    let (sg_b, svp_b, _) = hs_step(&mut b, &format!("k{tc}:{tu}"));
+    panic |= sg_b == "Panic" || svp_b.is_none();
+    let (mut rows_b, mut data_b) = (Vec::new(), Vec::new());
+    for n in &ns {
+        let (g, vp, d) = hs_step(&mut b, &format!("r{n}"));
+        panic |= g == "Panic" || vp.is_none();
+        rows_b.push(hs_row(&g, vp));
+        data_b.push(d);
+    }
+    // reader C over the bytes from tc on
+    let suffix: Vec<u8> = if (tc as usize) < bytes.len() { bytes[tc as usize..].to_vec() } else { Vec::new() };
+    let mut r = bgzf::io::Reader::new(Cursor::new(suffix));
+    let (sg_c, svp_c, _) = hs_step(&mut r, &format!("k0:{tu}"));
+    panic |= sg_c == "Panic" || svp_c.is_none();
+    let (mut rows_c, mut rows_m, mut data_c) = (Vec::new(), Vec::new(), Vec::new());
+    for n in &ns {
+        let (g, vp, d) = hs_step(&mut r, &format!("r{n}"));
+        panic |= g == "Panic" || vp.is_none();
+        rows_c.push(hs_row(&g, vp));
+        rows_m.push(hs_row(&g, moved(vp)));
+        data_c.push(d);
+    }
+    let seek_ok = !sg_b.starts_with("Err") && sg_b != "Panic";
+    let mut verdict = Ok(());
+    if panic {
+        verdict = Err(("damaged-file-history-panic".to_string(), "hreloc".to_string()));
+    } else if seek_ok && (sg_c.starts_with("Err") || svp_b != moved(svp_c) || rows_b != rows_m) {
+        verdict = Err(("seek-not-relocatable".to_string(), format!("B: {} {} C: {} {}", hs_row(&sg_b, svp_b), join(&rows_b), hs_row(&sg_c, svp_c), join(&rows_c))));
+    } else if seek_ok && data_b != data_c {
+        verdict = Err(("seek-relocated-other-data".to_string(), format!("target {tc}:{tu}")));
+    }
+    let o = format!(
+        "{} | {} | {} | {} | {} | {}",
+        hs_row(&sg_b, svp_b),
+        join(&rows_b),
+        hs_row(&sg_c, svp_c),
+        join(&rows_c),
+        moved(svp_c).map_or("Panic".to_string(), |v| format!("{}:{}", v.compressed(), v.uncompressed())),
+        join(&rows_m)
+    );
+    Obs::ok(o, seek_ok && tc > 0 && ns.len() >= 2).with_verdict(verdict)
+}
+
 // -------------------------------------------------------------------------------------------
 // writer over a FAILING destination (kind wfs, modelled: NV.Bgzf.WriterTellSink.fwtell_run)
 
@@ -1569,6 +1751,8 @@ fn run(c: &Case) -> Obs {
     match c.kind.as_str() {
         "wfs" => run_wfs(c),
         "hrs" => run_hrs(c),
+        "hshift" => run_hshift(c),
+        "hreloc" => run_hreloc(c),
         "hist" => run_hist(c),
         "wtell" | "wtm" => run_wtell(c),
         "vp" => run_vp(c),
@@ -2419,6 +2603,83 @@ fn generate(rng: &mut Rng, tier: &str, w: &mut CaseWriter) {
             })
             .collect();
         w.push("hrs", vec![hex(&bytes), hops.join(",")]);
+    }
+    // the shift theorem (kind hshift): mostly well-formed files (data frames of both encoders,
+    // empty frames anywhere, EOF marker or not, trailing garbage shorter than a header), some
+    // with one damaged frame (then a seek to a block end can fail although reading got there);
+    // reader A reads (65535 always ends at a block end) and seeks to frame starts; reader B does
+    // anything before it seeks to the position A told
+    let n_hs = if thorough { 3000 } else { 220 };
+    for _ in 0..n_hs {
+        let nf = rng.range(1, 5) as usize;
+        let mut frames: Vec<Vec<u8>> = Vec::new();
+        for _ in 0..nf {
+            let d = pattern(*rng.pick(&[0usize, 1, 5, 40, 300, 300]) + rng.below(3) as usize, rng.below(251), rng.range(1, 250));
+            frames.push(if rng.chance(1, 2) { writer_frame(&d, rng.below(10) as u8) } else { hand_frame(&d, rng.below(10) as u32) });
+            if rng.chance(1, 6) {
+                frames.push(EOF_MARKER.to_vec());
+            }
+        }
+        if rng.chance(2, 3) {
+            frames.push(EOF_MARKER.to_vec());
+        }
+        let mut bounds = vec![0usize];
+        for f in &frames {
+            bounds.push(bounds.last().unwrap() + f.len());
+        }
+        if rng.chance(1, 5) {
+            let k = rng.below(frames.len() as u64) as usize;
+            let flen = frames[k].len();
+            let fr = &mut frames[k];
+            match if flen >= 28 { rng.below(3) } else { 3 } {
+                3 => {}
+                0 => fr[18 + rng.below((flen - 26).max(1) as u64) as usize] ^= 1 << rng.below(8),
+                1 => fr[flen - 8 + rng.below(4) as usize] ^= 1 << rng.below(8),
+                _ => fr[rng.below(16) as usize] ^= 1 << rng.below(8),
+            }
+        }
+        let mut bytes: Vec<u8> = frames.concat();
+        if rng.chance(1, 6) {
+            bytes.extend_from_slice(&pattern(rng.range(1, 17) as usize, 31, 108));
+        }
+        let sizes = [0usize, 1, 3, 7, 41, 100, 299, 300, 4096, 65535];
+        let ops1: Vec<String> = (0..rng.range(0, 6))
+            .map(|_| {
+                if rng.chance(1, 6) {
+                    format!("k{}:{}", *rng.pick(&bounds), rng.pick(&[0u16, 0, 1, 5, 41]))
+                } else if rng.chance(1, 2) {
+                    format!("r{}", rng.pick(&[1usize, 3, 7, 41]))
+                } else {
+                    format!("r{}", rng.pick(&sizes))
+                }
+            })
+            .collect();
+        let mid: Vec<String> = (0..rng.range(0, 5))
+            .map(|_| {
+                if rng.chance(2, 5) {
+                    let c = match rng.below(4) {
+                        0 | 1 => *rng.pick(&bounds) as u64,
+                        2 => rng.below(bytes.len() as u64 + 30),
+                        _ => (*rng.pick(&bounds) as u64 + rng.below(20)).saturating_sub(rng.below(20)),
+                    };
+                    format!("k{}:{}", c, rng.pick(&[0u16, 0, 1, 5, 41, 300, 65535]))
+                } else {
+                    format!("r{}", rng.pick(&sizes))
+                }
+            })
+            .collect();
+        let ns: Vec<String> = (0..rng.range(2, 6)).map(|_| rng.pick(&sizes).to_string()).collect();
+        let j = |v: &[String]| if v.is_empty() { "_".to_string() } else { v.join(",") };
+        w.push("hshift", vec![hex(&bytes), j(&ops1), j(&mid), j(&ns)]);
+        // the relocation form (kind hreloc) on the same bytes: targets = frame starts (most), +-20,
+        // anywhere, beyond the end; any in-block offset
+        let c = match rng.below(8) {
+            0 => rng.below(bytes.len() as u64 + 30),
+            1 => (*rng.pick(&bounds) as u64 + rng.below(20)).saturating_sub(rng.below(20)),
+            _ => *rng.pick(&bounds) as u64,
+        };
+        let u = *rng.pick(&[0u16, 0, 1, 5, 41, 300, 65535]);
+        w.push("hreloc", vec![hex(&bytes), j(&mid), format!("{c}:{u}"), j(&ns)]);
     }
 }
 
